@@ -29,6 +29,8 @@ if ALT_REPO:
     CACHE = os.path.join(SCRATCH, 'mir-cache')
 else:
     SCRATCH = os.environ.get('VERIF_SCRATCH', '/var/tmp/bigdecimal-verif')
+# the scratch directory does not survive a fresh restore while the MIR cache may: never assume one implies the other
+os.makedirs(SCRATCH, exist_ok=True)
 
 
 def source_files(repo=None):
